@@ -177,7 +177,7 @@ def run(tier: str) -> int:
         required = sorted(insp.required_context_keys)
         # ---- soundness, exact context and supersets ---------------------------------------------------
         for variant in range(2):
-            ctx0 = {k: f"init_{k}" for k in required}
+            ctx0 = {k: ("/dev/null" if k == "path" else f"init_{k}") for k in required}     # `path` is a sink target: nothing is written into the cwd
             if variant == 1:
                 extra = [k for k in pipegen.KEYS if k not in ctx0 and rnd.random() < 0.4]
                 for k in extra:
